@@ -41,6 +41,7 @@ EXTENDS Integers, Sequences, FiniteSets, TLC, Json
 CONSTANTS Configs,    \* set of configuration records, see vx/props/C17.py:make_cfg
           Variant     \* "ok" | "xonly" | "notnan" | "zdata" | "revz" | "transpose"
                       \* | "colz" | "panellim" | "inplace" | "dropempty" | "auxmask"
+                      \* | "rotgrid"
 
 VARIABLES cfg,        \* the configuration chosen
           pc,         \* "setup" | "prepare" | "panel" | "series" | "finish" | "done"
@@ -166,7 +167,9 @@ BeginPanel ==
     /\ UNCHANGED <<cfg, ym, xm, am, cur, bad, ym0, xm0, useLegend, useCbar, lim, gi, gj, drawn, fin>>
 
 (* the slice the current panel's data is taken from *)
-SrcR == IF Variant = "transpose" /\ R = C THEN gj ELSE gi
+SrcR == IF Variant = "transpose" /\ R = C THEN gj
+        ELSE IF Variant = "rotgrid" THEN (gi % R) + 1          \* slices taken in another order than the titles
+        ELSE gi
 SrcC == IF Variant = "transpose" /\ R = C THEN gi ELSE gj
 
 XFin(r, c, z, k) == cfg.xvar => xm[Idx(r, c, z, k)] = "f"
